@@ -368,6 +368,21 @@ static struct client_data *find_client(int sock)
 	return NULL;
 }
 
+/* is NAME, or the NAME.old that create_directory(NAME) replaces, used by a connected client? */
+static bool dirname_in_use(const char *name)
+{
+	struct client_data *c;
+	size_t len = strlen(name);
+
+	list_for_each_entry(c, &client_list, list) {
+		if (!strcmp(c->dirname, name))
+			return true;
+		if (!strncmp(c->dirname, name, len) && !strcmp(c->dirname + len, ".old"))
+			return true;
+	}
+	return false;
+}
+
 #define O_CLIENT_FLAGS (O_WRONLY | O_APPEND | O_CREAT)
 
 static void write_client_file(struct client_data *c, char *filename, int nr, ...)
@@ -399,6 +414,7 @@ static void recv_trace_dir_name(int sock, int len)
 {
 	char dirname[len + 1];
 	struct client_data *client;
+	int n;
 
 	if (read_all(sock, dirname, len) < 0)
 		pr_err("recv header failed");
@@ -410,8 +426,14 @@ static void recv_trace_dir_name(int sock, int len)
 	client->dirname = xstrdup(dirname);
 	INIT_LIST_HEAD(&client->list);
 
-	create_directory(dirname);
-	pr_dbg3("create directory: %s\n", dirname);
+	/* do not share (or rotate away) the directory of a connected client */
+	for (n = 1; dirname_in_use(client->dirname); n++) {
+		free(client->dirname);
+		xasprintf(&client->dirname, "%s.%d", dirname, n);
+	}
+
+	create_directory(client->dirname);
+	pr_dbg3("create directory: %s\n", client->dirname);
 
 	list_add(&client->list, &client_list);
 }
